@@ -38,6 +38,8 @@ THEOREMS = [
     'Pyiga.Props.C07.outer_nurbs_model', 'Pyiga.Props.C07.tensor_nurbs_law', 'Pyiga.Props.C07.tensor_nurbs_model',
     'Pyiga.Props.C07.composed_jet', 'Pyiga.Props.C07.composed_jacobian', 'Pyiga.Props.C07.composed_value_route',
     'Pyiga.Props.C07.as_vector_nurbs_model', 'Pyiga.Props.C07.getitem_nurbs_model', 'Pyiga.Props.C07.apply_matrix_nurbs_model',
+    'Pyiga.Props.C07.line_segment_law', 'Pyiga.Props.C07.identity_axis', 'Pyiga.Props.C07.unit_cube_model',
+    'Pyiga.Props.C07.cylinderize_model', 'Pyiga.Props.C07.quarter_annulus_polar', 'Pyiga.Props.C07.disk_sides', 'Pyiga.Props.C07.disk_scale_radius',
     'Pyiga.Props.C07.copy_boundary_pinned_lose_scalar', 'Pyiga.Props.C07.boundary_pinned_curve_asserts',
 ]
 MODULES = ['Pyiga.Model.Jet', 'Pyiga.Model.Geometry', 'Pyiga.Proofs.Jet', 'Pyiga.Proofs.Geometry', 'Pyiga.Proofs.GeoLists', 'Pyiga.Proofs.Arcs', 'Pyiga.Proofs.Compose', 'Pyiga.Props.C07']
@@ -817,6 +819,7 @@ def run(ctx):
     got = ctx.model('drv_c07', req)
     lap('run model driver')
     ndis = 0
+    per_key = {}
     nbad = sum(1 for g in got if g == 'bad-request')
     if nbad:
         from .common import InfraError
@@ -838,7 +841,8 @@ def run(ctx):
         if d is None:
             continue
         ndis += 1
-        if ndis > 12:
+        per_key[m[0]] = per_key.get(m[0], 0) + 1
+        if per_key[m[0]] > 2:        # (the oracle search is run for the first disagreements of every request kind)
             continue
         found = search(ctx, m, d)
         ctx.violation('geo-corr:' + m[0], 'model and implementation disagree on `%s`: %s%s' % (m[0], d, (' — ' + found) if found else ''),
@@ -1350,36 +1354,27 @@ def oracle_checks(ctx, funcs):
                 count += 1
                 if d:
                     report('geo-oracle:' + name, 'value shapes %s x %s: %s' % (v1, v2, d), describe(('op:' + name, g1, g2)))
-    # cylinderize / unit_cube / identity
+    # cylinderize / unit_cube / identity (a modified tree must not crash the oracle: exceptions are findings)
+    def guarded(m):
+        try:
+            return oracle_constructor(m, rng)
+        except Exception as ex:
+            return '%s: oracle evaluation raised %s: %s' % (m[0][3:], type(ex).__name__, str(ex)[:160])
     for _ in range(max(3, nor // 5)):
         f = rand_func(rng, int(rng.integers(1, 3)), 'bsp', (int(rng.integers(1, 3)),))
         z0, z1 = float(rng.integers(-8, 9)) / 4, float(rng.integers(-8, 9)) / 4
-        supp = (0.25, 1.5)
-        G = f.cylinderize(z0, z1, support=supp)
-        O, OG = Oracle(f), Oracle(G)
-        n = len(f.kvs)
-        for _ in range(3):
-            x = tuple(rand_coord(rng, f.kvs[n - 1 - e], 1)[0] for e in range(n))
-            z = supp[0] + (supp[1] - supp[0]) * float(rng.integers(0, 17)) / 16
-            want = np.concatenate((np.atleast_1d(O.value(x)), [z0 + (z1 - z0) * (z - supp[0]) / (supp[1] - supp[0])]))
-            got = OG.value(x + (z,))
-            count += 1
-            if not close(got, want, OG.mag(x + (z,), 0) * 8):
-                report('geo-oracle:cylinderize', 'cylinderize(%r,%r,support=%r)%s = %s, expected (f(x), linear in z) = %s' % (z0, z1, supp, x + (z,), got.tolist(), want.tolist()),
-                       describe(('op:cylinderize', f, [z0, z1])))
+        d = guarded(('op:cylinderize', f, [z0, z1]))
+        count += 3
+        if d:
+            report('geo-oracle:cylinderize', d, describe(('op:cylinderize', f, [z0, z1])))
     for dim in (1, 2, 3):
-        G = geometry.unit_cube(dim=dim, num_intervals=int(rng.integers(1, 4)))
+        iv = int(rng.integers(1, 4))
         ext = [(float(rng.integers(-4, 1)) / 4, float(rng.integers(1, 5)) / 4) for _ in range(dim)]
-        Gi = geometry.identity(ext)
-        for _ in range(4):
-            x = tuple(float(rng.integers(0, 17)) / 16 for _ in range(dim))
-            count += 1
-            if not close(Oracle(G).value(x), np.array(x), 8.0):
-                report('geo-oracle:unit_cube', 'unit_cube(dim=%d)%s = %s is not the identity' % (dim, x, Oracle(G).value(x).tolist()), {'dim': dim, 'x': x})
-            # identity(extents): extents are given in the order of the knot vectors (zyx); the map is the identity in xyz
-            xi = tuple(ext[dim - 1 - e][0] + (ext[dim - 1 - e][1] - ext[dim - 1 - e][0]) * x[e] for e in range(dim))
-            if not close(Oracle(Gi).value(xi), np.array(xi), 8.0):
-                report('geo-oracle:identity', 'identity(%s)%s = %s is not the identity' % (ext, xi, Oracle(Gi).value(xi).tolist()), {'extents': ext, 'x': xi})
+        for m in (('op:unit_cube', dim, iv), ('op:identity', ext)):
+            d = guarded(m)
+            count += 4
+            if d:
+                report('geo-oracle:' + m[0][3:], d, {'args': list(m[1:])})
     # circles (model-free; arcs cannot be handed to the library with exact angles)
     ncirc = 12 if ctx.tier == 'quick' else 150
     for _ in range(ncirc):
